@@ -124,7 +124,7 @@ impl Prop for C02 {
         vec!["grey spellings (class C) are only required to arrive verbatim if they reach on_query and bare if they reach on_init".into()]
     }
     fn cases(&self, tier: Tier) -> u64 {
-        tier.pick(40_000, 600_000)
+        tier.pick(400000, 3000000)
     }
     fn fuzz_plan(&self, tier: Tier) -> Vec<(&'static str, u64)> {
         if tier == Tier::Thorough {
